@@ -493,7 +493,7 @@ Proof.
 Qed.
 
 Lemma ut_shape_valid : forall u, ut_shape u -> valid_tstate (ut_state u).
-Proof. intros u (_&_&_&_&_&_&H). exact H. Qed.
+Proof. intros u (_&_&_&_&_&_&_&H). exact H. Qed.
 
 Lemma sub_at_accepts : forall d t cs, Forall (cmd_at d t) cs -> sub_accepts cs.
 Proof.
